@@ -159,11 +159,32 @@ fn strip_positions(s: &str) -> String {
     out
 }
 
+/// every maximal alphabetic word replaced by "w"
+fn strip_words(s: &str) -> String {
+    let mut out = String::new();
+    let mut in_word = false;
+    for c in s.chars() {
+        if c.is_alphabetic() {
+            if !in_word {
+                out.push('w');
+            }
+            in_word = true;
+        } else {
+            in_word = false;
+            out.push(c);
+        }
+    }
+    out
+}
+
 fn diff_kind(hist: &str, fresh: &str) -> &'static str {
     if hist.contains("PANIC") || hist.contains("CRASH") || hist.contains("not found in assembly") || hist.contains("THREAD-DIED") {
         "crash"
     } else if strip_positions(hist) == strip_positions(fresh) {
         "position"
+    } else if hist.contains("E[") && fresh.contains("E[") && strip_words(&strip_positions(hist)) == strip_words(&strip_positions(fresh)) {
+        // same error, positions aside, up to the identifiers it mentions
+        "name"
     } else if !hist.contains("E[") && !fresh.contains("E[") {
         "value"
     } else {
@@ -362,8 +383,8 @@ fn edits(r: &mut Rng, p: &str) -> Vec<(&'static str, String)> {
     out
 }
 
-const MON_BODIES: [&str; 12] = ["⊂1", "+1", "⊢", "↙2", "⇌", "√", "⊏1", "↘1", "°□", "⊂⊙1", "×2", "⍉"];
-const DY_BODIES: [&str; 6] = ["×", "+", "⊂", "-", "⊟", "↥"];
+const MON_BODIES: [&str; 14] = ["⊂1", "+1", "⊢", "↙2", "⇌", "√", "⊏1", "↘1", "°□", "⊂⊙1", "×2", "⍉", "⍏", "◴"];
+const DY_BODIES: [&str; 8] = ["×", "+", "⊂", "-", "⊟", "↥", "⊏", "⊡"];
 const VALUES: [&str; 12] = ["[2 2]", "[1 2 3]", "[]", "5", "\"ab\"", "[1_2 3_4]", "↯2_0 0", "{1 2}", "[1_2 3_5]", "[4 5 6]", "[3_4 1_2]", "[1 4 9]"];
 /// use lines; F = a monadic definition, D = a dyadic definition, V = a value
 const USES: [&str; 30] = [
@@ -375,7 +396,9 @@ const USES: [&str; 30] = [
 fn gen_program(r: &mut Rng, fam: &[(usize, usize, usize, usize)]) -> String {
     // fam: a small family of (mon body, dy body, use, value) choices shared by a history
     let (mb, db, u, v) = *r.pick(fam);
-    let mut defs = vec![format!("F ← {}", MON_BODIES[mb]), format!("D ← {}", DY_BODIES[db]), "X ← 5".to_string()];
+    // the same content under other names, sometimes
+    let (fname, dname) = if r.chance(1, 3) { ("P", "Q") } else { ("F", "D") };
+    let mut defs = vec![format!("{fname} ← {}", MON_BODIES[mb]), format!("{dname} ← {}", DY_BODIES[db]), "X ← 5".to_string()];
     // other definitions that move indices and positions
     let extra = ["G ← +", "H ← ⊂2", "Y ← 7", "K ← ⊟", "# note", ""];
     for _ in 0..r.below(3) {
@@ -395,7 +418,7 @@ fn gen_program(r: &mut Rng, fam: &[(usize, usize, usize, usize)]) -> String {
         s.push('\n');
     }
     let val = if r.chance(1, 3) { *r.pick(&VALUES) } else { VALUES[v] };
-    let line = USES[u].replace('V', val);
+    let line = USES[u].replace('V', val).replace('F', fname).replace('D', dname);
     if r.chance(1, 4) {
         s.push_str("  ");
     }
@@ -538,15 +561,16 @@ fn collect_funcs(n: &Node, out: &mut HashMap<String, uiua::Function>) {
 fn real_un(n: &Node, asm: &Assembly) -> Option<String> {
     let (n, asm) = (n.clone(), asm.clone());
     in_thread(move || {
-        catch(|| {
-            n.un_inverse(&asm).ok().map(|inv| {
+        catch(|| match n.un_inverse(&asm) {
+            Ok(inv) => {
                 // un.rs:45-51: a cached inverse with a top-level MatchPattern is never used
                 let usable = !inv.iter().any(|n| matches!(n, Node::ImplPrim(uiua::ImplPrimitive::MatchPattern, _)));
                 format!("{}{}", if usable { "U" } else { "N" }, export_full(&inv, &asm))
-            })
+            }
+            // errors are cached (and used) too; their text can name functions
+            Err(e) => format!("E{e}"),
         })
         .ok()
-        .flatten()
     })
     .flatten()
 }
@@ -562,10 +586,12 @@ fn real_un_after(x: &Node, ax: &Assembly, y: &Node, ay: &Assembly) -> Option<Str
     in_thread(move || {
         catch(|| {
             let _ = x.un_inverse(&ax);
-            y.un_inverse(&ay).ok().map(|inv| export_full(&inv, &ay))
+            match y.un_inverse(&ay) {
+                Ok(inv) => export_full(&inv, &ay),
+                Err(e) => e.to_string(),
+            }
         })
         .ok()
-        .flatten()
     })
     .flatten()
 }
@@ -611,17 +637,27 @@ fn main() {
         }
         "search" => {
             let mut s = Search { fresh: Fresh { cache: HashMap::new(), evals: 0 }, evals: 0, histories: 0, compared: 0, skipped: 0, viol: HashMap::new(), fam: HashMap::new() };
-            // (1) the known pairs, always
-            let fixed: [(&str, &[&str]); 5] = [
-                ("fixed", &["X ← ⚂\n°(⊂X) [1 2]", "F ← |0.1 (°(⊂F) [1 2])\nF"]),
-                ("fixed", &["F ← ⊂1\nX ← 5\n°⊙F X [2 2]", "X ← 5\nF ← ⊂1\n°⊙F X [2 2]"]),
-                ("fixed", &["X ← 5\n\n≡⊢ ↯2_0 0", "≡⊢ ↯2_0 0"]),
-                ("fixed", &["A ← 1\nB ← 2\nC ← 3\nD ← +A×B C\nE ← ⊂⊟A B [C D]\n≡⊢ ↯2_0 0", "≡⊢ ↯2_0 0"]),
-                ("fixed", &["F ← ×\n≡(/F⇌) [1_2 3_4]", "G ← +\nF ← ×\n≡(/F⇌) [1_2 3_5]"]),
+            // (1) the regression corpus, always and first: every history that ever differed from
+            //     a fresh thread (the first nine were repaired by 25aa9f6 and must stay repaired)
+            let fixed: [&[&str]; 13] = [
+                &["F ← ⊂1\nX ← 5\n°⊙F X [2 2]", "X ← 5\nF ← ⊂1\n°⊙F X [2 2]"],
+                &["X ← 5\n\n≡⊢ ↯2_0 0", "≡⊢ ↯2_0 0"],
+                &["A ← 1\nB ← 2\nC ← 3\nD ← +A×B C\nE ← ⊂⊟A B [C D]\n≡⊢ ↯2_0 0", "≡⊢ ↯2_0 0"],
+                &["F ← ×\n≡(/F⇌) [1_2 3_4]", "G ← +\nF ← ×\n≡(/F⇌) [1_2 3_5]"],
+                &["\n\nH ← ⊂2\nD ← ⊟\nF ← ⊂⊙1\nX ← 5\n⍜F(↙1) [2 2]\n", "\nF ← ⊂⊙1\nD ← ⊟\nX ← 5\n⍜F(↙1) [1_2 3_4]\n"],
+                &["D ← ⊟\nF ← +1\nX ← 5\n⌝D 1 ↯2_0 0\n", "F ← +1\nD ← ⊟\nX ← 5\n  ⌝D 1 ↯2_0 0\n"],
+                &["Y ← 7\nX ← 5\nD ← +\nF ← √\nY ← 7\n≡(¯/D⇌) [3_4 1_2]\n", "F ← √\nX ← 5\nD ← +\n≡(¯/D⇌) [1_2 3_5]\n"],
+                &["F ← ⊂1\nX ← 5\n⍜⊙F(⊂3) X [2 2]", "X ← 5\nF ← ⊂1\n⍜⊙F(⊂3) X [2 2]"],
+                &["F ← ⊢\nX ← 5\n≡(F⇌) ↯2_0 0", "X ← 5\nF ← ⊢\n≡(F⇌) ↯2_0 0"],
+                // still open: the purity cache, and the names of function handles
+                &["X ← ⚂\n°(⊂X) [1 2]", "F ← |0.1 (°(⊂F) [1 2])\nF"],
+                &["F ← ⍏\n°F [1 2]", "G ← ⍏\n°G [1 2]"],
+                &["F ← ⊏\n≡(/F⇌) [1_2 3_9]", "G ← ⊏\n≡(/G⇌) [1_2 3_8]"],
+                &["F ← ⍏\n⍜F⇌ [1 2]", "G ← ⍏\n⍜G⇌ [1 2]"],
             ];
-            for (fam, h) in fixed {
+            for h in fixed {
                 let progs: Vec<String> = h.iter().map(|x| x.to_string()).collect();
-                s.run_history(fam, &progs);
+                s.run_history("fixed", &progs);
             }
             // (2) generated programs built to collide keys
             for _ in 0..n {
@@ -726,19 +762,21 @@ fn main() {
                 let (sx, sy) = (x.as_slice(), y.as_slice());
                 let sig_eq = hooks::sig_key(sx) == hooks::sig_key(sy);
                 let node_eq = hooks::node_key(x) == hooks::node_key(y);
-                let inv_eq = hooks::inverse_key(sx) == hooks::inverse_key(sy);
+                let inv_eq = hooks::inverse_key(sx, ax) == hooks::inverse_key(sy, ay);
+                let zip_eq = hooks::zip_key(x) == hooks::zip_key(y);
                 let mut collide = "2";
                 let mut x_usable = true;
                 let (un_eq, sg_eq) = if fcmp {
                     let (a, b) = (real_un(x, ax), real_un(y, ay));
+                    // un_eq: 1 same / 0 different inverses (both Ok), 3 different and an error involved, 2 n/a
                     let un = match (&a, &b) {
-                        (Some(a), Some(b)) => {
-                            if a == b { "1" } else { "0" }
-                        }
+                        (Some(a), Some(b)) if a == b => "1",
+                        (Some(a), Some(b)) if a.starts_with('E') || b.starts_with('E') => "3",
+                        (Some(_), Some(_)) => "0",
                         _ => "2",
                     };
-                    x_usable = a.as_ref().map_or(true, |s| s.starts_with('U'));
-                    if un == "0" {
+                    x_usable = a.as_ref().map_or(true, |s| !s.starts_with('N'));
+                    if un == "0" || un == "3" {
                         // the real cache: does y's inverse, asked right after x's, come out as in a fresh thread?
                         collide = match real_un_after(x, ax, y, ay) {
                             Some(after) if Some(after.as_str()) == b.as_ref().map(|s| &s[1..]) => "0",
@@ -751,7 +789,7 @@ fn main() {
                     ("2", "2")
                 };
                 println!(
-                    "{{\"i\":{},\"kind\":{},\"x\":{},\"y\":{},\"sig_eq\":{},\"node_eq\":{},\"inv_eq\":{},\"un_eq\":{},\"rsig_eq\":{},\"un_collide\":{},\"x_usable\":{},\"show\":{}}}",
+                    "{{\"i\":{},\"kind\":{},\"x\":{},\"y\":{},\"sig_eq\":{},\"node_eq\":{},\"inv_eq\":{},\"zip_eq\":{},\"un_eq\":{},\"rsig_eq\":{},\"un_collide\":{},\"x_usable\":{},\"show\":{}}}",
                     *k,
                     jstr(kind),
                     jstr(&export_slice(x, ax)),
@@ -759,6 +797,7 @@ fn main() {
                     sig_eq,
                     node_eq,
                     inv_eq,
+                    zip_eq,
                     un_eq,
                     sg_eq,
                     collide,
@@ -847,6 +886,16 @@ fn main() {
                         if swap_calls(&mut y, &fs) > 0 {
                             emit("fn-body-spans", &t, &asm, &y, &asm3, fcmp, &mut k);
                         }
+                    }
+                    // the name of a handle
+                    let mut y = t.clone();
+                    let mut fs = have.clone();
+                    for f in fs.values_mut() {
+                        f.id = uiua::FunctionId::Named("Qq".into());
+                    }
+                    let renamed: HashMap<String, uiua::Function> = have.keys().cloned().zip(have.keys().map(|k| fs[k].clone())).collect();
+                    if swap_calls(&mut y, &renamed) > 0 {
+                        emit("fn-name", &t, &asm, &y, &asm, true, &mut k);
                     }
                     // the sig field of a handle
                     let mut y = t.clone();
